@@ -21,6 +21,12 @@ type State struct {
 	retVals   []Val
 	pathID    int
 	trace     []string
+	calls     []callRec
+}
+
+type callRec struct {
+	key   string
+	named map[string]Val
 }
 
 type deferred struct {
@@ -48,6 +54,7 @@ func (s *State) clone() *State {
 	n.defers = append([]deferred(nil), s.defers...)
 	n.retVals = append([]Val(nil), s.retVals...)
 	n.trace = append([]string(nil), s.trace...)
+	n.calls = append([]callRec(nil), s.calls...)
 	return n
 }
 
@@ -105,6 +112,7 @@ type FnCtx struct {
 	localTypes map[string]types.Type
 	inPattern bool
 	callOrd map[*ast.CallExpr]int
+	stmtAssertHit map[*Clause]bool
 	globalFacts []string
 	pendingPanics []*State
 	hasRecover bool
